@@ -136,7 +136,8 @@ impl<'tcx> Cx<'tcx> {
         let ty = c.ty();
         let mut named = None;
         if let Const::Unevaluated(u, _) = c {
-            named = Some(self.path(u.def));
+            // "<visible path>|<verbose def path>": the loader maps the latter to the defining crate's name
+            named = Some(format!("{}|{}", self.path(u.def), self.dpath(u.def)));
         }
         if let ty::FnDef(..) = ty.kind() {
             return ("null".into(), named);
@@ -285,10 +286,10 @@ impl<'tcx> Cx<'tcx> {
                 let (v, named) = self.const_val_json(owner, &c.const_);
                 let mut fnp = "null".to_string();
                 if let ty::FnDef(d, _) = ty.kind() {
-                    fnp = js(&self.path(*d));
+                    fnp = js(&format!("{}|{}", self.path(*d), self.dpath(*d)));
                 }
                 if let ty::Closure(d, _) = ty.kind() {
-                    fnp = js(&self.path(*d));
+                    fnp = js(&format!("{}|{}", self.path(*d), self.dpath(*d)));
                 }
                 format!(
                     "[\"k\",{},{},{},{}]",
@@ -376,7 +377,7 @@ impl<'tcx> Cx<'tcx> {
                         tcx.def_path_str_with_args(d, args)
                     )
                 );
-                let mut o = format!("{{\"p\":{},\"pa\":{}", js(&p), js(&pa));
+                let mut o = format!("{{\"p\":{},\"pa\":{},\"dk\":{}", js(&p), js(&pa), js(&self.dpath(d)));
                 // trait method? remember the trait
                 if matches!(tcx.def_kind(d), DefKind::AssocFn) {
                     if let Some(tr) = tcx.trait_of_assoc(d) {
@@ -397,7 +398,7 @@ impl<'tcx> Cx<'tcx> {
                     if let Ok(Some(inst)) = Instance::try_resolve(tcx, env, d, args) {
                         let rd = inst.def_id();
                         if rd != d {
-                            let _ = write!(o, ",\"r\":{}", js(&self.path(rd)));
+                            let _ = write!(o, ",\"r\":{},\"rdk\":{}", js(&self.path(rd)), js(&self.dpath(rd)));
                         }
                         let _ = write!(o, ",\"res\":true");
                     }
@@ -676,8 +677,9 @@ impl<'tcx> Cx<'tcx> {
         let (v, _) = self.const_val_json(did, &c);
         let _ = writeln!(
             out,
-            "{{\"t\":\"const\",\"path\":{},\"ty\":{},\"val\":{}}}",
+            "{{\"t\":\"const\",\"path\":{},\"dp\":{},\"ty\":{},\"val\":{}}}",
             js(&self.path(did)),
+            js(&self.dpath(did)),
             js(&self.ty_str(ty)),
             v
         );
